@@ -13,7 +13,8 @@ zlib (de)compression and UTF-8 decoding (functions that succeed or fail).
 
 Import-free, executable.  The model says what the code DOES today (after /repo commit f721ca9,
 which turned the `IndexError` on a priority-last line into a `ValueError`; the pre-fix parser is
-kept as `parsePartsOld`).
+kept as `parsePartsOld`; 96f18c4: columns split at runs of whitespace, old splitter kept in `parseLineSp`;
+2626e70: header fields whitespace-collapsed, old header kept as `headerTextOld`).
 -/
 namespace Inventory
 
@@ -36,6 +37,34 @@ def pySplit (s : Str) : List Str := s.splitOn ' '
 
 /-- `' '.join(ws)` -/
 def pyJoin (ws : List Str) : Str := [' '].intercalate ws
+
+/-- `str.isspace()` for one character = what `str.split()` separates at and regex `\s` matches -/
+def isReSpace (c : Char) : Bool :=
+  [' ', '\t', '\n', '\r', Char.ofNat 0x0b, Char.ofNat 0x0c, Char.ofNat 0x1c, Char.ofNat 0x1d, Char.ofNat 0x1e,
+   Char.ofNat 0x1f, Char.ofNat 0x85, Char.ofNat 0xa0, Char.ofNat 0x1680, Char.ofNat 0x2000, Char.ofNat 0x2001,
+   Char.ofNat 0x2002, Char.ofNat 0x2003, Char.ofNat 0x2004, Char.ofNat 0x2005, Char.ofNat 0x2006, Char.ofNat 0x2007,
+   Char.ofNat 0x2008, Char.ofNat 0x2009, Char.ofNat 0x200a, Char.ofNat 0x2028, Char.ofNat 0x2029, Char.ofNat 0x202f,
+   Char.ofNat 0x205f, Char.ofNat 0x3000].contains c
+
+/-- `s.split()` with the current (reversed) token as accumulator: runs of whitespace separate,
+no empty strings -/
+def splitWsAux : Str → Str → List Str
+  | [], cur => if cur = [] then [] else [cur.reverse]
+  | c :: cs, cur =>
+    if isReSpace c then (if cur = [] then splitWsAux cs [] else cur.reverse :: splitWsAux cs [])
+    else splitWsAux cs (c :: cur)
+
+/-- `s.split()` -/
+def pySplitWs (s : Str) : List Str := splitWsAux s []
+
+/-- `re.sub(r'\s+', ' ', s)`; `prev` = the previous character was whitespace -/
+def collapseAux : Bool → Str → Str
+  | _, [] => []
+  | prev, c :: cs =>
+    if isReSpace c then (if prev then collapseAux true cs else ' ' :: collapseAux true cs)
+    else c :: collapseAux false cs
+
+def collapseWs (s : Str) : Str := collapseAux false s
 
 /-- the characters `str.splitlines()` breaks at -/
 def isLineBreak (c : Char) : Bool :=
@@ -125,7 +154,7 @@ def scanPrio (toInt : Str → Option Int) : List Str → Nat → Outcome (Nat ×
     | some v => .ok (i, v)
     | none => scanPrio toInt rest (i + 1)
 
-/-- body of `_parseInventoryLine` after `parts = line.split(' ')`.
+/-- body of `_parseInventoryLine` after `parts = line.split()`.
 `prio_idx ≥ 2` always, so `prio_idx - 1` is never a negative (wrap-around) index. -/
 def parseParts (toInt : Str → Option Int) (parts : List Str) : Outcome Entry :=
   match scanPrio toInt (parts.drop 2) 2 with
@@ -144,7 +173,14 @@ def parseParts (toInt : Str → Option Int) (parts : List Str) : Outcome Entry :
           if display = [] then .raised .valueError      -- "Display name column cannot be empty"
           else .ok ⟨name, typ, prio, location, display⟩
 
+/-- `_parseInventoryLine(line)`: columns are separated by runs of whitespace (`line.split()`,
+/repo commit 96f18c4) -/
 def parseLine (toInt : Str → Option Int) (line : Str) : Outcome Entry :=
+  parseParts toInt (pySplitWs line)
+
+/-- PRE-96f18c4 `_parseInventoryLine` (columns split at single spaces, `line.split(' ')`), kept for
+the historical `old_double_space_wrong_key` -/
+def parseLineSp (toInt : Str → Option Int) (line : Str) : Outcome Entry :=
   parseParts toInt (pySplit line)
 
 /-- PRE-FIX code (before /repo commit f721ca9), kept only for the historical `old_…` theorems:
@@ -164,7 +200,7 @@ def parsePartsOld (toInt : Str → Option Int) (parts : List Str) : Outcome Entr
         if display = [] then .raised .valueError
         else .ok ⟨name, typ, prio, location, display⟩
 
-/-- PRE-FIX `_parseInventoryLine` -/
+/-- PRE-FIX `_parseInventoryLine` (before f721ca9; split at single spaces) -/
 def parseLineOld (toInt : Str → Option Int) (line : Str) : Outcome Entry :=
   parsePartsOld toInt (pySplit line)
 
@@ -449,14 +485,26 @@ def unknownList (parent : Option Str) : List Tree → List Str
   | t :: ts => unknownTree parent t ++ unknownList parent ts
 end
 
-/-- the four comment lines of `_generateHeader` (without the leading `#` and the newline) -/
+/-- the four comment lines of `_generateHeader` (without the leading `#` and the newline); since
+/repo commit 2626e70 whitespace runs in the project name and version are collapsed to one space -/
 def headerLines (project version : Str) : List Str :=
-  [" Sphinx inventory version 2".toList, " Project: ".toList ++ project, " Version: ".toList ++ version,
-   " The rest of this file is compressed with zlib.".toList]
+  [" Sphinx inventory version 2".toList, " Project: ".toList ++ collapseWs project,
+   " Version: ".toList ++ collapseWs version, " The rest of this file is compressed with zlib.".toList]
 
 /-- `_generateHeader` (text before `.encode('utf-8')`) -/
 def headerText (project version : Str) : Str :=
   (headerLines project version).flatMap fun l => '#' :: l ++ ['\n']
+
+/-- PRE-2626e70 header: project name and version written verbatim (historical counterexample) -/
+def headerTextOld (project version : Str) : Str :=
+  ([" Sphinx inventory version 2".toList, " Project: ".toList ++ project, " Version: ".toList ++ version,
+    " The rest of this file is compressed with zlib.".toList] : List Str).flatMap fun l => '#' :: l ++ ['\n']
+
+/-- PRE-2626e70 `generate` -/
+def generateFileOld (zip : Bytes → Bytes) (project version : Str) (roots : List Tree) : Outcome Bytes :=
+  match generateContent roots with
+  | .raised e => .raised e
+  | .ok content => .ok (encodeUtf8 (headerTextOld project version) ++ zip (encodeUtf8 content))
 
 /-- the bytes `generate` writes to `objects.inv` -/
 def generateFile (zip : Bytes → Bytes) (project version : Str) (roots : List Tree) : Outcome Bytes :=
